@@ -89,8 +89,11 @@ func expectedObs(sc script, fired []int64) rawObs {
 	return o
 }
 
-func sameObs(a, b rawObs) bool {
-	if a.RegOK != b.RegOK || a.Configured != b.Configured || a.Syncs != b.Syncs || len(a.Events) != len(b.Events) {
+// regDet: whether the plugin's RegisterPlugin call returns nil is determined only when the runtime refuses
+// it in the handler or keeps the plugin; when the runtime drops the connection right after registration the
+// answer races with the close (nil or "ttrpc: closed") and is not compared.
+func sameObs(a, b rawObs, regDet bool) bool {
+	if (regDet && a.RegOK != b.RegOK) || a.Configured != b.Configured || a.Syncs != b.Syncs || len(a.Events) != len(b.Events) {
 		return false
 	}
 	for i := range a.Events {
@@ -348,7 +351,9 @@ func (cs *regCase) coq() string {
 func (cs *regCase) mismatches() []string {
 	var bad []string
 	for i, rc := range cs.Conns {
-		if !sameObs(rc.Obs, expectedObs(rc.Script, cs.Fired)) {
+		cl := classify(rc.Script)
+		regDet := cl == "good" || cl == "reg-timeout" || cl == "closed" || cl == "bad-name" || cl == "bad-index"
+		if !sameObs(rc.Obs, expectedObs(rc.Script, cs.Fired), regDet) {
 			bad = append(bad, fmt.Sprintf("connection %d (%s): observed %+v, expected %+v", i, rc.Class, rc.Obs, expectedObs(rc.Script, cs.Fired)))
 		}
 	}
